@@ -48,6 +48,44 @@ pub struct LayoutD {
     pub variations: Vec<VarRec>,
     /// Some(a): the last lookup's Coverage lies 65536 bytes after lookup a's Coverage
     pub far_coverage: Option<usize>,
+    /// per lookup: its Coverage table is written in format 2 (ranges); missing = format 1.
+    /// Lookups that cover glyph 0 (.notdef) always get format 2.
+    pub cov2: Vec<bool>,
+    /// 0 = FeatureVariations directly after the lookup list; 1 = the FeatureTableSubstitution
+    /// tables are laid out at or beyond byte 65535 of the layout table (condition sets stay near);
+    /// 2 = the whole FeatureVariations table starts beyond 64 KiB. Both are legal: the offsets
+    /// involved are Offset32.
+    pub far_fts: u8,
+    /// where the first far FeatureTableSubstitution table goes (offset from the layout table start)
+    pub far_fts_at: usize,
+}
+
+impl LayoutD {
+    pub fn lookup_covers_glyph0(lk: &Lk) -> bool {
+        match lk {
+            Lk::Single(p) => p.iter().any(|x| x.0 == 0),
+            Lk::SinglePos(g, _) => g.contains(&0),
+            Lk::PairPos(p) => p.iter().any(|x| x.0 == 0),
+        }
+    }
+    /// Is the Coverage table of lookup `i` written in format 2?
+    pub fn coverage_format2(&self, i: usize) -> bool {
+        self.cov2.get(i).copied().unwrap_or(false) || self.lookups.get(i).map_or(false, LayoutD::lookup_covers_glyph0)
+    }
+    /// Some lookup has a format 2 Coverage table with a range that starts at glyph 0.
+    pub fn has_format2_coverage_of_glyph0(&self) -> bool {
+        self.lookups.iter().any(LayoutD::lookup_covers_glyph0)
+    }
+}
+
+/// What the writer did (offsets are from the start of the layout table).
+#[derive(Clone, Debug, Default)]
+pub struct Written {
+    pub bytes: Vec<u8>,
+    /// two Coverage tables really lie 65536 bytes apart
+    pub far_coverage_applied: bool,
+    /// per FeatureVariation record: offset of its FeatureTableSubstitution table (None = offset 0)
+    pub fts_at: Vec<Option<usize>>,
 }
 
 #[derive(Clone, Debug)]
@@ -65,26 +103,44 @@ pub struct GenFont {
     pub vadvances: Option<Vec<u16>>,
     /// a layout table really got two Coverage tables 65536 bytes apart
     pub far_applied: bool,
+    /// offsets (from the table start) of the FeatureTableSubstitution tables, per variation record
+    pub gsub_fts_at: Vec<Option<usize>>,
+    pub gpos_fts_at: Vec<Option<usize>>,
     pub bytes: Vec<u8>,
 }
 
 // ---- writer -------------------------------------------------------------------------------------
 
-fn write_coverage(glyphs: &[u16]) -> Vec<u8> {
+/// `glyphs` sorted ascending and distinct. Format 2: maximal runs of consecutive glyph ids.
+fn write_coverage(glyphs: &[u16], fmt2: bool) -> Vec<u8> {
     let mut w = W::new();
-    w.u16(1).u16(glyphs.len() as u16);
-    for g in glyphs {
-        w.u16(*g);
+    if !fmt2 {
+        w.u16(1).u16(glyphs.len() as u16);
+        for g in glyphs {
+            w.u16(*g);
+        }
+        return w.b;
+    }
+    let mut ranges: Vec<(u16, u16, u16)> = Vec::new(); // start, end, startCoverageIndex
+    for (i, &g) in glyphs.iter().enumerate() {
+        match ranges.last_mut() {
+            Some(r) if r.1 as u32 + 1 == g as u32 => r.1 = g,
+            _ => ranges.push((g, g, i as u16)),
+        }
+    }
+    w.u16(2).u16(ranges.len() as u16);
+    for r in &ranges {
+        w.u16(r.0).u16(r.1).u16(r.2);
     }
     w.b
 }
 
-fn write_subtable(lk: &Lk, rng: &mut Rng) -> (u16, Vec<u8>) {
+fn write_subtable(lk: &Lk, fmt2: bool, rng: &mut Rng) -> (u16, Vec<u8>) {
     match lk {
         Lk::Single(pairs) => {
             let mut p = pairs.clone();
             p.sort();
-            let cov = write_coverage(&p.iter().map(|x| x.0).collect::<Vec<_>>());
+            let cov = write_coverage(&p.iter().map(|x| x.0).collect::<Vec<_>>(), fmt2);
             let delta = p.first().map(|x| x.1.wrapping_sub(x.0));
             let constant = p.iter().all(|x| Some(x.1.wrapping_sub(x.0)) == delta);
             let mut w = W::new();
@@ -103,7 +159,7 @@ fn write_subtable(lk: &Lk, rng: &mut Rng) -> (u16, Vec<u8>) {
             let mut g = glyphs.clone();
             g.sort();
             g.dedup();
-            let cov = write_coverage(&g);
+            let cov = write_coverage(&g, fmt2);
             let mut w = W::new();
             if rng.bool() {
                 w.u16(1).u16(8).u16(0x0004).i16(*adv);
@@ -122,7 +178,7 @@ fn write_subtable(lk: &Lk, rng: &mut Rng) -> (u16, Vec<u8>) {
                 by_first.entry(a).or_default().entry(b).or_insert(v);
             }
             let firsts: Vec<u16> = by_first.keys().copied().collect();
-            let cov = write_coverage(&firsts);
+            let cov = write_coverage(&firsts, fmt2);
             let header = 10 + 2 * firsts.len();
             let mut sets = Vec::new();
             for (_, m) in &by_first {
@@ -154,11 +210,13 @@ fn write_subtable(lk: &Lk, rng: &mut Rng) -> (u16, Vec<u8>) {
 /// `far`: lay the LAST lookup out so that its Coverage table starts exactly 65536 bytes after the
 /// Coverage table of lookup `far` (zero padding in between): two distinct objects whose offsets
 /// agree in the low 16 bits, as in real fonts with large layout tables.
-fn write_lookup_list(lookups: &[Lk], far: Option<usize>, rng: &mut Rng) -> Vec<u8> {
+fn write_lookup_list(d: &LayoutD, rng: &mut Rng) -> (Vec<u8>, bool) {
+    let (lookups, far) = (&d.lookups, d.far_coverage);
     let mut bodies: Vec<Vec<u8>> = Vec::new();
     let mut cov_offsets: Vec<usize> = Vec::new(); // coverage offset inside the subtable
-    for lk in lookups {
-        let (ty, sub) = write_subtable(lk, rng);
+    let mut far_applied = false;
+    for (i, lk) in lookups.iter().enumerate() {
+        let (ty, sub) = write_subtable(lk, d.coverage_format2(i), rng);
         cov_offsets.push(crate::sfnt::be16(&sub, 2).unwrap_or(0) as usize);
         let mut w = W::new();
         w.u16(ty).u16(0).u16(1).u16(8);
@@ -181,6 +239,7 @@ fn write_lookup_list(lookups: &[Lk], far: Option<usize>, rng: &mut Rng) -> Vec<u
                 w.bytes(cov);
                 w.set_u16(8 + 2, c_b as u16);
                 bodies[b] = w.b;
+                far_applied = true;
             }
         }
     }
@@ -194,7 +253,7 @@ fn write_lookup_list(lookups: &[Lk], far: Option<usize>, rng: &mut Rng) -> Vec<u
     for b in &bodies {
         w.bytes(b);
     }
-    w.b
+    (w.b, far_applied)
 }
 
 fn write_feature_table(lookups: &[u16]) -> Vec<u8> {
@@ -273,69 +332,110 @@ fn write_script_list(scripts: &[ScriptD]) -> Vec<u8> {
     w.b
 }
 
-fn write_feature_variations(v: &[VarRec]) -> Vec<u8> {
+fn write_condition_set(conds: &[(u16, i16, i16)]) -> Vec<u8> {
+    let mut cs = W::new();
+    cs.u16(conds.len() as u16);
+    let mut at = 2 + 4 * conds.len();
+    for _ in conds {
+        cs.u32(at as u32);
+        at += 8;
+    }
+    for &(axis, lo, hi) in conds {
+        cs.u16(1).u16(axis).i16(lo).i16(hi);
+    }
+    cs.b
+}
+
+fn write_feature_table_substitution(subs: &[(u16, Vec<u16>)]) -> Vec<u8> {
+    let mut s = subs.to_vec();
+    s.sort_by_key(|x| x.0);
+    let mut f = W::new();
+    f.u16(1).u16(0).u16(s.len() as u16);
+    let bodies: Vec<Vec<u8>> = s.iter().map(|x| write_feature_table(&x.1)).collect();
+    let mut at = 6 + 6 * s.len();
+    for (x, b) in s.iter().zip(&bodies) {
+        f.u16(x.0).u32(at as u32);
+        at += b.len();
+    }
+    for b in &bodies {
+        f.bytes(b);
+    }
+    f.b
+}
+
+/// `far_from`: Some(n) = all condition sets first, then zero padding, then the
+/// FeatureTableSubstitution tables from offset n of the FeatureVariations table on; None = each
+/// record's condition set directly followed by its substitution table.
+/// Returns the table and, per record, the offset of its substitution table within it.
+fn write_feature_variations(v: &[VarRec], far_from: Option<usize>) -> (Vec<u8>, Vec<Option<usize>>) {
     let mut w = W::new();
     w.u16(1).u16(0).u32(v.len() as u32);
     let header = 8 + 8 * v.len();
     let mut blobs: Vec<u8> = Vec::new();
-    for r in v {
-        // condition set (always written, an empty one matches everything)
-        let cs_at = header + blobs.len();
-        let mut cs = W::new();
-        cs.u16(r.conds.len() as u16);
-        let mut at = 2 + 4 * r.conds.len();
-        for _ in &r.conds {
-            cs.u32(at as u32);
-            at += 8;
-        }
-        for &(axis, lo, hi) in &r.conds {
-            cs.u16(1).u16(axis).i16(lo).i16(hi);
-        }
-        blobs.extend_from_slice(&cs.b);
-        let fts_at = match &r.subst {
-            None => 0,
-            Some(subs) => {
-                let o = header + blobs.len();
-                let mut s = subs.clone();
-                s.sort_by_key(|x| x.0);
-                let mut f = W::new();
-                f.u16(1).u16(0).u16(s.len() as u16);
-                let bodies: Vec<Vec<u8>> = s.iter().map(|x| write_feature_table(&x.1)).collect();
-                let mut at = 6 + 6 * s.len();
-                for (x, b) in s.iter().zip(&bodies) {
-                    f.u16(x.0).u32(at as u32);
-                    at += b.len();
-                }
-                for b in &bodies {
-                    f.bytes(b);
-                }
-                blobs.extend_from_slice(&f.b);
-                o
+    let mut cs_at: Vec<usize> = Vec::new();
+    let mut fts_at: Vec<Option<usize>> = Vec::new();
+    match far_from {
+        None => {
+            for r in v {
+                // condition set (always written, an empty one matches everything)
+                cs_at.push(header + blobs.len());
+                blobs.extend_from_slice(&write_condition_set(&r.conds));
+                fts_at.push(r.subst.as_ref().map(|subs| {
+                    let o = header + blobs.len();
+                    blobs.extend_from_slice(&write_feature_table_substitution(subs));
+                    o
+                }));
             }
-        };
-        w.u32(cs_at as u32).u32(fts_at as u32);
+        }
+        Some(n) => {
+            for r in v {
+                cs_at.push(header + blobs.len());
+                blobs.extend_from_slice(&write_condition_set(&r.conds));
+            }
+            if header + blobs.len() < n {
+                blobs.resize(n - header, 0);
+            }
+            for r in v {
+                fts_at.push(r.subst.as_ref().map(|subs| {
+                    let o = header + blobs.len();
+                    blobs.extend_from_slice(&write_feature_table_substitution(subs));
+                    o
+                }));
+            }
+        }
+    }
+    for (c, f) in cs_at.iter().zip(&fts_at) {
+        w.u32(*c as u32).u32(f.unwrap_or(0) as u32);
     }
     w.bytes(&blobs);
-    w.b
+    (w.b, fts_at)
 }
 
-pub fn write_layout(d: &LayoutD, rng: &mut Rng) -> Vec<u8> {
+pub fn write_layout(d: &LayoutD, rng: &mut Rng) -> Written {
     let sl = write_script_list(&d.scripts);
     let fl = write_feature_list(&d.features);
-    let ll = write_lookup_list(&d.lookups, d.far_coverage, rng);
+    let (ll, far_coverage_applied) = write_lookup_list(d, rng);
     let mut w = W::new();
     let header = 14;
     let sl_at = header;
     let fl_at = sl_at + sl.len();
     let ll_at = fl_at + fl.len();
-    let fv_at = ll_at + ll.len();
+    let mut fv_at = ll_at + ll.len();
+    // unrelated data of a big layout table between the lookup list and the FeatureVariations table
+    let pad = if d.far_fts == 2 && !d.variations.is_empty() { d.far_fts_at.saturating_sub(fv_at) } else { 0 };
+    fv_at += pad;
     w.u16(1).u16(1).u16(sl_at as u16).u16(fl_at as u16).u16(ll_at as u16);
     w.u32(if d.variations.is_empty() { 0 } else { fv_at as u32 });
     w.bytes(&sl).bytes(&fl).bytes(&ll);
+    let mut fts_at = Vec::new();
     if !d.variations.is_empty() {
-        w.bytes(&write_feature_variations(&d.variations));
+        w.bytes(&vec![0u8; pad]);
+        let far_from = if d.far_fts == 1 { Some(d.far_fts_at.saturating_sub(fv_at)) } else { None };
+        let (fv, at) = write_feature_variations(&d.variations, far_from);
+        w.bytes(&fv);
+        fts_at = at.into_iter().map(|o| o.map(|o| o + fv_at)).collect();
     }
-    w.b
+    Written { bytes: w.b, far_coverage_applied, fts_at }
 }
 
 pub fn write_fvar(axes: &[(u32, i32, i32, i32)]) -> Vec<u8> {
@@ -409,20 +509,31 @@ fn gen_layout(rng: &mut Rng, gpos: bool, axes: usize) -> LayoutD {
     }
     names.sort();
     let mut d = LayoutD::default();
+    // one table in three: about half of its lookups act on glyph 0 (.notdef) too, through a
+    // format 2 Coverage table whose first range starts at glyph 0 (0..=0, 0..=1, ... 0..=3)
+    let zero = rng.chance(1, 3);
     let gen_lookup = |rng: &mut Rng| -> Lk {
+        let upto0: Option<u16> = if zero && rng.bool() { Some(if rng.bool() { 0 } else { 1 + rng.below(3) as u16 }) } else { None };
         if gpos {
             if rng.bool() {
                 let n = 1 + rng.below(4);
-                let glyphs: Vec<u16> = (0..n).map(|_| 1 + rng.below(LETTERS as usize) as u16).collect();
+                let mut glyphs: Vec<u16> = (0..n).map(|_| 1 + rng.below(LETTERS as usize) as u16).collect();
+                if let Some(k) = upto0 {
+                    glyphs.extend(0..=k);
+                }
                 Lk::SinglePos(glyphs, *rng.pick(&[-120i16, -50, -7, 13, 40, 90, 250]))
             } else {
                 let n = 1 + rng.below(5);
-                Lk::PairPos(
-                    (0..n)
-                        .map(|_| (1 + rng.below(LETTERS as usize) as u16, 1 + rng.below(LETTERS as usize) as u16, rng.range(-200, 200) as i16))
-                        .filter(|p| p.2 != 0)
-                        .collect::<Vec<_>>(),
-                )
+                let mut pairs: Vec<(u16, u16, i16)> = Vec::new();
+                if let Some(k) = upto0 {
+                    // .notdef as the first glyph of a pair (the one the Coverage table is asked about)
+                    for first in 0..=k {
+                        let second = if rng.chance(1, 3) { 0 } else { 1 + rng.below(LETTERS as usize) as u16 };
+                        pairs.push((first, second, *rng.pick(&[-90i16, -33, 21, 60, 140])));
+                    }
+                }
+                pairs.extend((0..n).map(|_| (1 + rng.below(LETTERS as usize) as u16, 1 + rng.below(LETTERS as usize) as u16, rng.range(-200, 200) as i16)).filter(|p| p.2 != 0));
+                Lk::PairPos(pairs)
             }
         } else {
             let n = 1 + rng.below(4);
@@ -431,6 +542,12 @@ fn gen_layout(rng: &mut Rng, gpos: bool, axes: usize) -> LayoutD {
                 let from = if rng.chance(1, 5) { TARGET_LO + rng.below(8) as u16 } else { 1 + rng.below(LETTERS as usize) as u16 };
                 let to = TARGET_LO + rng.below((NUM_GLYPHS - TARGET_LO) as usize) as u16;
                 m.insert(from, to);
+            }
+            if let Some(k) = upto0 {
+                for from in 0..=k {
+                    let to = TARGET_LO + rng.below((NUM_GLYPHS - TARGET_LO) as usize) as u16;
+                    m.insert(from, to);
+                }
             }
             Lk::Single(m.into_iter().collect())
         }
@@ -526,9 +643,46 @@ fn gen_layout(rng: &mut Rng, gpos: bool, axes: usize) -> LayoutD {
         };
         d.variations.push(VarRec { conds, subst });
     }
+    // FeatureTableSubstitution tables at or beyond byte 65535 of the table (GSUB: 1 in 6):
+    // the first two records get disjoint regions of axis 0 and give one feature (the ordinary
+    // `liga` / `kern` if present) different, new lookups
+    if rng.chance(1, if gpos { 10 } else { 6 }) {
+        d.far_fts = if rng.chance(2, 3) { 1 } else { 2 };
+        d.far_fts_at = match rng.below(4) {
+            0 => 65535,
+            1 => 65536,
+            2 => 65537 + rng.below(400),
+            _ => 70000 + rng.below(5000),
+        };
+        let fi = d.features.iter().position(|f| f.0 == tag(must)).unwrap_or_else(|| rng.below(nf)) as u16;
+        while d.variations.len() < 2 {
+            d.variations.push(VarRec { conds: Vec::new(), subst: None });
+        }
+        let pos = *rng.pick(&[(4096i16, 16384i16), (8192, 16384)]);
+        let neg = *rng.pick(&[(-16384i16, -4096i16), (-16384, -8192)]);
+        let regions = if rng.bool() { [pos, neg] } else { [neg, pos] };
+        for (k, c) in regions.iter().enumerate() {
+            let mut lk = gen_lookup(rng);
+            for _ in 0..8 {
+                if !matches!(&lk, Lk::PairPos(p) if p.is_empty()) {
+                    break;
+                }
+                lk = gen_lookup(rng);
+            }
+            let li = d.lookups.len() as u16;
+            d.lookups.push(lk);
+            let r = &mut d.variations[k];
+            r.conds = vec![(0, c.0, c.1)];
+            let subs = r.subst.get_or_insert_with(Vec::new);
+            subs.retain(|s| s.0 != fi);
+            subs.push((fi, vec![li]));
+            subs.sort_by_key(|s| s.0);
+        }
+    }
     if rng.chance(1, 8) && d.lookups.len() >= 2 {
         d.far_coverage = Some(rng.below(d.lookups.len() - 1));
     }
+    d.cov2 = (0..d.lookups.len()).map(|i| LayoutD::lookup_covers_glyph0(&d.lookups[i]) || rng.chance(1, 4)).collect();
     d
 }
 
@@ -556,11 +710,12 @@ pub fn gen_font(rng: &mut Rng) -> GenFont {
     f.sets("hmtx", write_hmtx(&metrics, NUM_GLYPHS as usize));
     let hhea = Hhea { ascender: 800, descender: -200, advance_width_max: 1000, num_h_metrics: NUM_GLYPHS, caret_slope_rise: 1, ..Default::default() };
     f.sets("hhea", hhea.write());
-    let gsub_bytes = write_layout(&gsub, rng);
-    let gpos_bytes = write_layout(&gpos, rng);
-    let far_applied = gsub_bytes.len() > 65536 || gpos_bytes.len() > 65536;
-    f.sets("GSUB", gsub_bytes);
-    f.sets("GPOS", gpos_bytes);
+    let gsub_w = write_layout(&gsub, rng);
+    let gpos_w = write_layout(&gpos, rng);
+    let far_applied = gsub_w.far_coverage_applied || gpos_w.far_coverage_applied;
+    let (gsub_fts_at, gpos_fts_at) = (gsub_w.fts_at, gpos_w.fts_at);
+    f.sets("GSUB", gsub_w.bytes);
+    f.sets("GPOS", gpos_w.bytes);
     let axis_defs: Vec<(u32, i32, i32, i32)> = [(tag("wght"), 100, 400, 900), (tag("wdth"), 50, 100, 200)].iter().take(axes).copied().collect();
     f.sets("fvar", write_fvar(&axis_defs));
     let has_gdef = rng.chance(1, 3);
@@ -588,7 +743,7 @@ pub fn gen_font(rng: &mut Rng) -> GenFont {
         None
     };
     let bytes = f.build();
-    GenFont { gsub, gpos, axes, num_glyphs: NUM_GLYPHS, cmap, advances, has_gdef, kern_pairs, vadvances, far_applied, bytes }
+    GenFont { gsub, gpos, axes, num_glyphs: NUM_GLYPHS, cmap, advances, has_gdef, kern_pairs, vadvances, far_applied, gsub_fts_at, gpos_fts_at, bytes }
 }
 
 // ---- model --------------------------------------------------------------------------------------
@@ -671,6 +826,15 @@ fn apply_gpos_lookup(lk: &Lk, glyphs: &[u16], kern: &mut [i32]) {
 }
 
 impl GenFont {
+    /// Number of GSUB FeatureVariation records whose FeatureTableSubstitution table lies at or
+    /// beyond byte 65535 of the table.
+    pub fn far_gsub_substitutions(&self) -> usize {
+        self.gsub_fts_at.iter().filter(|o| o.map_or(false, |o| o >= 65535)).count()
+    }
+    pub fn far_gpos_substitutions(&self) -> usize {
+        self.gpos_fts_at.iter().filter(|o| o.map_or(false, |o| o >= 65535)).count()
+    }
+
     pub fn map_text(&self, text: &str) -> Vec<u16> {
         text.chars().map(|c| self.cmap.get(&(c as u32)).copied().unwrap_or(0)).collect()
     }
